@@ -21,7 +21,7 @@ ASSUMPTIONS = list(c03.ASSUMPTIONS) + [
   "flattened-port naming convention as documented by the import pass / VNameMangle tests; a header mismatch is reported as "
   "its own signature (yosys:flat_port_map)",
 ]
-QUICK_S = 80
+QUICK_S = 240
 THOROUGH_S = 1500
 
 KNOWN_SIG = "yosys:drivers:struct_signal_forms_inconsistent"
